@@ -7,17 +7,18 @@ import (
 	"fmt"
 	"os"
 	"path/filepath"
+	"runtime/debug"
 	"sort"
 	"strconv"
 	"strings"
 	"time"
 
-	"cffverif/internal/load"
-	"cffverif/internal/report"
 	"cffverif/internal/gen"
 	"cffverif/internal/genlint"
 	"cffverif/internal/lib"
+	"cffverif/internal/load"
 	"cffverif/internal/regen"
+	"cffverif/internal/report"
 	"cffverif/internal/sched"
 	"cffverif/internal/variants"
 )
@@ -149,6 +150,9 @@ func (es engineSet) has(id string) bool {
 func runEngines(es engineSet, tier string, sink *report.Sink) (errs []string) {
 	defer func() {
 		if p := recover(); p != nil {
+			if os.Getenv("CFFVERIF_TRACE") != "" {
+				os.Stderr.Write(debug.Stack())
+			}
 			errs = append(errs, fmt.Sprintf("analyser panic: %v", p))
 		}
 	}()
